@@ -987,7 +987,11 @@ NATIVE_EXPRS = [
 
 # texts that the host's readers turn into numbers the language has no literal for: no such value may come out
 NATIVE_ODD = ["parse_json('[NaN]')[0]", "parse_json('[Infinity]')[0]", "parse_json('[-Infinity]')[0]", "parse_json('1e999')",
-              "parse_json('[1e400, 1]')[0]", "decimal('nan')", "decimal('inf')", "decimal('1e999')", "decimal('-infinity')"]
+              "parse_json('[1e400, 1]')[0]", "decimal('nan')", "decimal('inf')", "decimal('1e999')", "decimal('-infinity')",
+              # arithmetic that leaves the range of a decimal, and what the host makes of the difference of two such results
+              "1" + "0" * 308 + ".0 * 10.0", "(1" + "0" * 308 + ".0 * 10.0) - (1" + "0" * 308 + ".0 * 10.0)",
+              "sum([1" + "0" * 308 + ".0, 1" + "0" * 308 + ".0]) - sum([1" + "0" * 308 + ".0, 1" + "0" * 308 + ".0])",
+              "(1" + "0" * 308 + ".0 + 1" + "0" * 308 + ".0) * 0", "9" * 400 + ".5 - " + "9" * 400 + ".5"]
 
 
 def kclass(a):
